@@ -25,13 +25,16 @@ CHECKS = {
             "model routine graphs (Comp.genR) mean what the source program means (proved for call-free trees in C01, executed against "
             "Src for call graphs). ABI subroutines are covered by execution only.",
             "DESIGN.md Part II C02"),
-    "C03": ("exploration",
-            "Lean 4 theorems on the model of the scratch-slot optimiser (sound when every access to a cancelled slot is an adjacent store/load pair; counterexample for dead stores) tied to the real pass on generated graphs; option-pair differential execution of the real TEAL texts incl. stack at every routine exit",
-            "One program, every (version, scratch_slots, frame_pointers) setting under which it compiles: the real TEAL texts are executed on "
-            "the AVM spec on the same contexts and must agree in verdict, return value, effects and user-numbered slots; optimised vs "
-            "unoptimised twins must also agree in the operand stack whenever a routine is left.",
-            "Trusted: AVM spec (cancels out between the two programs except control/stack rules). One known finding (dead stores deleted by "
-            "the optimiser leave their value on the stack; pinned by the repository's own optimizer_test).",
+    "C03": ("proof",
+            "Lean 4 proof (partial, labelled): slot_to_stack_sound_partial / optimizer_only_removes / execPrim_frame on a model of the scratch-slot optimiser (Iterate order, candidate scan, dependency scan, removal) against the block-graph machine; optimizer_counterexample proves the unrestricted statement false (known finding); the model is compared with the real apply_global_optimizations on generated block graphs; version and frame-pointer settings are decided by option-pair differential execution of the real TEAL texts incl. stack at every routine exit",
+            "Optimiser: for every routine graph, context, fuel and start state, when every access to a cancelled slot belongs to an adjacent "
+            "store/load pair (decidable; what the pass establishes except for the known finding) the optimised routine has the same halt, verdict, "
+            "effects, remaining slots and stack. Tie: the real pass is run on generated graphs of real TealBlock objects and compared op for op with "
+            "the model; every graph is also executed before/after. Version / frame-pointer settings: one program, every setting under which it "
+            "compiles, executed on the same contexts (verdict, return value, effects, user-numbered slots, stack at routine exits for twins).",
+            "Trusted: Lean kernel, AVM spec, block-graph machine, harness encoding of real graphs. The optimiser theorem is partial (hypothesis "
+            "pairsOnly; underflow clause); equivalence across versions and across frame_pointers is exploration, not a theorem. One known finding "
+            "(dead stores deleted by the optimiser leave their value on the stack; pinned by the repository's own optimizer_test).",
             "DESIGN.md Part II C03"),
     "C15": ("proof",
             "Lean 4 proof: Base64-VLQ and Revision-3 mappings round-trip theorems (all integer lists / all well-formed tables), annotated-line stripping theorem against the TEAL tokeniser; correspondence with the real codecs; frame-capture parts decided by differential execution of generated source files with/without source maps",
